@@ -695,6 +695,10 @@ class Interp:
         if isinstance(e, ast.Lambda):
             return [val(self._closure_value(e, fr), st)]
         if isinstance(e, (ast.ListComp, ast.SetComp, ast.GeneratorExp, ast.DictComp)):
+            lhook = getattr(self.domain, "lazy_comprehension", None)
+            lazy = lhook(self, e, st, fr) if lhook is not None and isinstance(e, ast.GeneratorExp) else None
+            if lazy is not None:
+                return dedupe(lazy)
             eager = self._eager_comprehension(e, st, fr)
             if eager is not None:
                 return dedupe(eager)
@@ -1466,7 +1470,12 @@ class Interp:
     def _for(self, s, st, fr):
         out = []
         d = self.domain
-        for r in self._forced(self.eval(s.iter, st, fr), fr):
+        sources = []
+        for r in self.eval(s.iter, st, fr):
+            # something produced on demand (a generator ...) is asked for its elements one at a time, below; anything else is a sequence now
+            lazily = r.kind == "val" and getattr(d, "lazy_generators", False) and getattr(d, "pullable", lambda v: False)(r.value)
+            sources.extend([r] if lazily else self._forced([r], fr))
+        for r in sources:
             if r.kind == "exc":
                 out.append(("raise", r.value, r.state))
                 continue
@@ -1614,10 +1623,58 @@ class Interp:
                 return done
             gen = gens[gi]
             result = []
+
+            def element(elv, c2, acc2):
+                """One element of the iterated sequence: the conditions, then the inner clauses / the element expression."""
+                got = []
+                passing = [self.assign(gen.target, elv, c2, fr)]
+                for cond in gen.ifs:
+                    keep = []
+                    for s3 in passing:
+                        for br, s4 in self.branch(cond, s3, fr):
+                            if br == "exc":
+                                excs.append(s4)
+                            elif br:
+                                keep.append(s4)
+                            else:
+                                got.append((s4, acc2))
+                    passing = keep
+                sub = run(gi + 1, [(s3, acc2) for s3 in passing])
+                if sub is None:
+                    return None
+                got.extend(sub)
+                return got
+            puller, pullable = getattr(self.domain, "pull", None), getattr(self.domain, "pullable", None)
             for c, acc in states:
-                for r in self._forced(self.eval(gen.iter, c, fr), fr):
+                sources = self.eval(gen.iter, c, fr)
+                lazily = puller is not None and bool(sources) and all(r.kind == "exc" or (pullable(r.value) and getattr(self.domain, "lazy_generators", False)) for r in sources)
+                for r in (sources if lazily else self._forced(sources, fr)):
                     if r.kind == "exc":
                         excs.append(r)
+                        continue
+                    if lazily:
+                        # produced on demand (a generator ...): the next element is asked for after the previous one was dealt with
+                        work = [(r.value, r.state, acc)]
+                        for _ in range(getattr(self.domain, "generator_budget", 256)):
+                            nxt = []
+                            for seq, c2, acc2 in work:
+                                for kind_, el, rest, s1 in puller(self, seq, c2, fr):
+                                    if kind_ == "end":
+                                        result.append((s1, acc2))
+                                    elif kind_ == "exc":
+                                        excs.append(exc(el, s1))
+                                    elif kind_ == "unknown":
+                                        return None
+                                    else:
+                                        got = element(el, s1, acc2)
+                                        if got is None:
+                                            return None
+                                        nxt.extend((rest, s_, a_) for s_, a_ in got)
+                            work = list(dict.fromkeys(nxt))
+                            if not work:
+                                break
+                        else:
+                            raise Undecided(f"the comprehension at line {comp.lineno} of {fr.name} does not end within the analysis budget")
                         continue
                     exact = self._exact_elements(r.value)
                     if exact is None:
@@ -1626,22 +1683,10 @@ class Interp:
                     for elv in exact:
                         nxt = []
                         for c2, acc2 in cur:
-                            passing = [self.assign(gen.target, elv, c2, fr)]
-                            for cond in gen.ifs:
-                                keep = []
-                                for s3 in passing:
-                                    for br, s4 in self.branch(cond, s3, fr):
-                                        if br == "exc":
-                                            excs.append(s4)
-                                        elif br:
-                                            keep.append(s4)
-                                        else:
-                                            nxt.append((s4, acc2))
-                                passing = keep
-                            sub = run(gi + 1, [(s3, acc2) for s3 in passing])
-                            if sub is None:
+                            got = element(elv, c2, acc2)
+                            if got is None:
                                 return None
-                            nxt.extend(sub)
+                            nxt.extend(got)
                         cur = list(dict.fromkeys(nxt))
                     result.extend(cur)
             return result
@@ -1924,7 +1969,10 @@ class Interp:
         return self._dd(out)
 
     # ------------------------------------------------------------------ calls
-    def inline(self, func, argvals, st, caller, receiver=None, name=None, is_method=True, closure_env=(), self_value=None):
+    lazy_request = None   # the generator function whose next call should give a generator object (set by the domain around a call it resolved)
+    lazy_made = False
+
+    def inline(self, func, argvals, st, caller, receiver=None, name=None, is_method=True, closure_env=(), self_value=None, export_locals=None):
         """Execute ``func`` with params bound to abstract values; -> list of Result.
 
         argvals: dict param name -> abstract value (missing params -> TOP or
@@ -1937,6 +1985,12 @@ class Interp:
                 chain.append(getattr(getattr(f_, "func", None), "name", "<lambda>"))
                 f_ = getattr(f_, "parent", None) or getattr(f_, "caller", None)
             raise Undecided(f"inlining bound {self.max_depth} exceeded at {getattr(func, 'name', '<lambda>')} (called from {' <- '.join(chain)})")
+        if self.lazy_request is not None and self.lazy_request is func:
+            self.lazy_request = None
+            made = self.domain.make_generator(self, func, argvals, st, caller, receiver=receiver, is_method=is_method, closure_env=closure_env, self_value=self_value)
+            if made is not None:
+                self.lazy_made = True
+                return made
         raw = any(n_ == "<raw>" for n_, _ in closure_env)
         if raw:
             closure_env = tuple(kv for kv in closure_env if kv[0] != "<raw>")
@@ -2002,7 +2056,7 @@ class Interp:
                 env_locals.append((name_, v_, None))
         for name_, v_, _ in env_locals:
             entry = entry.set(fr.local(name_), v_)
-        key = (id(func), entry, tuple(sorted((k, repr(v)) for k, v in argvals.items())), fr.self_key, tuple(sorted(fr.cellrefs.items())))
+        key = (id(func), entry, tuple(sorted((k, repr(v)) for k, v in argvals.items())), fr.self_key, tuple(sorted(fr.cellrefs.items())), export_locals)
         if key in self.in_progress:
             return [Result(r.kind, r.value, State(r.state.items | caller_locals, r.state.log)) for r in self.summaries.get(key, [])]
         cached = self.round_cache.get(key)
@@ -2073,6 +2127,10 @@ class Interp:
                 if cell_n is not None:
                     s2 = self._release_cells(cell_n, payload, s2, fr)
                 s3 = s2.drop_prefix(fr.prefix)
+                if export_locals is not None:
+                    # the frame of a generator step: what its locals hold now stays with the generator object
+                    for n_ in export_locals[1]:
+                        s3 = s3.set(f"{export_locals[0]}.{n_}", s2.get(fr.local(n_)) if s2.has(fr.local(n_)) else ("unbound-local",))
                 # a dict handed in by the caller and changed in place: hand the final content back
                 for p_ in mutable_params:
                     final = finals[p_]
@@ -2307,6 +2365,9 @@ class Interp:
             res = self.inline(func, argvals, st, None, receiver=receiver, name=name)
             if not self.changed:
                 break
+        if getattr(self.domain, "lazy_generators", False) and any(r.kind == "val" and isinstance(r.value, tuple) and r.value[:1] in (("genobj",), ("lazycomp",)) for r in res):
+            # the analysed function hands back a generator: the rules read what it yields (and what producing it does)
+            res = [x for r in res for x in (self._forced([r], None) if r.kind == "val" and isinstance(r.value, tuple) and r.value[:1] in (("genobj",), ("lazycomp",)) else [r])]
         if getattr(self.domain, "heap", False):
             res = dedupe([Result(r.kind, unbox_deep(r.value, r.state, iters=True), without_heap(r.state)) for r in res])
         return res
